@@ -101,6 +101,8 @@ pub fn run_pairs(seed: u64, n: usize, profile: &Profile) -> MetaOutcome {
     for k in 0..n {
         let mut r = Rng::new(seed.wrapping_mul(48271).wrapping_add(k as u64));
         let mut base = gen_program(seed.wrapping_mul(69621).wrapping_add(k as u64), profile);
+        // the stage relies on `published[0..2]` being its own systems: nothing is registered while the app is built
+        base.app_reactors.clear();
         // dedicated systems first: published[0] = recursion system (script 0), published[1] = system that is killed
         base.scripts.insert(0, Script { runs: vec![vec![Act::Mark, Act::Run(0), Act::SendSe(0, 0)], vec![Act::Mark], vec![]], cyclic: true });
         base.scripts.insert(1, Script { runs: vec![], cyclic: false });
@@ -142,7 +144,14 @@ pub fn run_pairs(seed: u64, n: usize, profile: &Profile) -> MetaOutcome {
             && lb == la;
         let regs_changed = av.regs.iter().any(|g| (g.start > qb && g.start < qa) || matches!(g.end, Some((p, _)) if p > qb && p < qa));
         let prefix_insts: BTreeSet<usize> = av.runs.iter().filter(|run| run.pos > qb && run.pos < qa).map(|run| run.inst).collect();
-        let x_insts: BTreeSet<usize> = av.runs.iter().filter(|run| run.pos > qa).map(|run| run.inst).collect();
+        let mut x_insts: BTreeSet<usize> = av.runs.iter().filter(|run| run.pos > qa).map(|run| run.inst).collect();
+        // instances whose state is released in X count as taking part in X as well (the zero-sized body creates its
+        // canary on its first run, so whether the prefix ran it would show)
+        for (i, info) in av.insts.iter().enumerate() {
+            if info.canary_drops.iter().any(|p| *p > qa) || info.explicit_despawn.map(|p| p > qa).unwrap_or(false) {
+                x_insts.insert(i);
+            }
+        }
         let tokens_before = av.cmds.iter().filter(|c| matches!(c.act, RAct::Register { .. }) && c.issued_pos > qb && c.issued_pos < qa).count();
         if !same_state || regs_changed || tokens_before > 0 || prefix_insts.intersection(&x_insts).next().is_some() {
             continue;
